@@ -13,6 +13,7 @@ import (
 	"path"
 	"path/filepath"
 	"slices"
+	"sync"
 	"text/template"
 	"time"
 
@@ -38,6 +39,9 @@ type HTMLReport struct {
 
 	// outputDir is the output directory for the generated reports.
 	outputDir string
+
+	// mu guards the asset and best results, which are updated by all backtest workers.
+	mu sync.Mutex
 
 	// assetResults is the mapping from the asset name to strategy results.
 	assetResults map[string][]*htmlReportResult
@@ -95,6 +99,9 @@ func (h *HTMLReport) Begin(assetNames []string, _ []strategy.Strategy) error {
 		return fmt.Errorf("unable to make the output directory: %w", err)
 	}
 
+	h.mu.Lock()
+	defer h.mu.Unlock()
+
 	h.bestResults = make([]*htmlReportResult, 0, len(assetNames))
 
 	return nil
@@ -102,6 +109,9 @@ func (h *HTMLReport) Begin(assetNames []string, _ []strategy.Strategy) error {
 
 // AssetBegin is called when backtesting for the given asset begins.
 func (h *HTMLReport) AssetBegin(name string, strategies []strategy.Strategy) error {
+	h.mu.Lock()
+	defer h.mu.Unlock()
+
 	_, ok := h.assetResults[name]
 	if ok {
 		return fmt.Errorf("asset has already begun: %s", name)
@@ -136,6 +146,18 @@ func (h *HTMLReport) Write(assetName string, currentStrategy strategy.Strategy, 
 		go helper.Drain(snapshots)
 	}
 
+	result := &htmlReportResult{
+		AssetName:    assetName,
+		StrategyName: currentStrategy.Name(),
+		Action:       <-actions,
+		Since:        <-sinces,
+		Outcome:      <-outcomes * 100,
+		Transactions: <-transactions,
+	}
+
+	h.mu.Lock()
+	defer h.mu.Unlock()
+
 	// Get asset strategy results.
 	results, ok := h.assetResults[assetName]
 	if !ok {
@@ -143,26 +165,22 @@ func (h *HTMLReport) Write(assetName string, currentStrategy strategy.Strategy, 
 	}
 
 	// Append current strategy result for the asset.
-	h.assetResults[assetName] = append(results, &htmlReportResult{
-		AssetName:    assetName,
-		StrategyName: currentStrategy.Name(),
-		Action:       <-actions,
-		Since:        <-sinces,
-		Outcome:      <-outcomes * 100,
-		Transactions: <-transactions,
-	})
+	h.assetResults[assetName] = append(results, result)
 
 	return nil
 }
 
 // AssetEnd is called when backtesting for the given asset ends.
 func (h *HTMLReport) AssetEnd(name string) error {
+	h.mu.Lock()
 	results, ok := h.assetResults[name]
 	if !ok {
+		h.mu.Unlock()
 		return fmt.Errorf("asset has not begun: %s", name)
 	}
 
 	delete(h.assetResults, name)
+	h.mu.Unlock()
 
 	// Sort the backtest results by the outcomes.
 	slices.SortFunc(results, func(a, b *htmlReportResult) int {
@@ -173,7 +191,10 @@ func (h *HTMLReport) AssetEnd(name string) error {
 
 	// Report the best result for the current asset.
 	h.Logger.Info("Best outcome", "asset", name, "strategy", bestResult.StrategyName, "outcome", bestResult.Outcome)
+
+	h.mu.Lock()
 	h.bestResults = append(h.bestResults, bestResult)
+	h.mu.Unlock()
 
 	// Write the asset report.
 	err := h.writeAssetReport(name, results)
@@ -186,6 +207,9 @@ func (h *HTMLReport) AssetEnd(name string) error {
 
 // End is called when the backtest ends.
 func (h *HTMLReport) End() error {
+	h.mu.Lock()
+	defer h.mu.Unlock()
+
 	// Sort the best results by the outcomes.
 	slices.SortFunc(h.bestResults, func(a, b *htmlReportResult) int {
 		return int(b.Outcome - a.Outcome)
